@@ -32,6 +32,16 @@
 (* still holds, and cells are allocated smallest-free-first; this is a      *)
 (* reduction, not an abstraction: an unreachable non-internal cell can only *)
 (* come back by being passed in, which is the same as passing a new array.  *)
+(*                                                                          *)
+(* Properties: NoAlias, CacheCoherent (invariants), Stable, AppendOnly,     *)
+(* OnePerCommit (action properties).  TLC: all hold for Impl = FALSE; for   *)
+(* Impl = TRUE the shortest counterexamples are                             *)
+(*   NoAlias       compute_results()                                        *)
+(*   Stable        [one batch committed] compute_results(); scribble res[x] *)
+(*   AppendOnly    [one batch committed] to_dict(); scribble d[_history][x][0]*)
+(* Binding (checks/c17.py): with Record = TRUE the variable `path' holds, for *)
+(* every step, the operation label, View and the predicted sharing; every    *)
+(* enumerated / simulated path is executed on a real StateManager.           *)
 (***************************************************************************)
 EXTENDS Integers, Sequences, FiniteSets, TLC
 
@@ -104,7 +114,6 @@ FreeC(S) == {c \in 1..MaxC : S.arr[c] = FREE}
 FreeL(S) == {l \in 1..MaxL : S.lst[l] = FREE}
 Pick(F, n) == CHOOSE c \in F : Cardinality({e \in F : e < c}) = n - 1
 A(S, n)  == Pick(FreeC(S), n)     \* n-th free array cell (smallest first)
-AL(S, n) == Pick(FreeL(S), n)     \* n-th free list cell
 
 \* Allocation of a whole structure at once.  Slot p of the layout: p = 1, 2 -> cur["x"], cur["logl"];
 \* p = 2 + (j-1)*MaxCommits + i -> batch i of the history of the j-th array key.  Slot p is backed by the
